@@ -55,8 +55,8 @@ def replay_rotate(ctx, rnd, st, wlo, whi, idx, pid='C15'):
     k = rnd.choice([0, 0, 2, -4, 9])
     scale = 2.0 ** k
     t = rnd.choice([0, 0, 5, -300])
-    if k == 0 and rnd.random() < 0.3:
-        t = rnd.choice([300000, -2 ** 20])        # far from the origin: the pivot is then 'close' to the centre in relative terms only
+    if k == 0 and rnd.random() < (0.6 if s['k'] == 'polygon' else 0.3):
+        t = rnd.choice([300000, -2 ** 20, 2 ** 23])        # far from the origin: the pivot is then 'close' to the centre in relative terms only
     fr = geom.Frame(U, scale, float(t), float(-2 * t), rnd.randint(0, 5))
     fr2 = geom.Frame(U * e[2], scale, fr.tx, fr.ty, 0)
     try:
@@ -91,10 +91,13 @@ def replay_rotate(ctx, rnd, st, wlo, whi, idx, pid='C15'):
         got = float(rot.area)
         tol = 1e-12 * max(want, (30.0 * scale) ** 2)     # self-intersecting polygons have zero signed area
         if s['k'] == 'polygon':
-            # the shoelace sum works on absolute coordinates: far from the origin its rounding (and that of the rotated vertices) is of
-            # the order n * eps * M^2, M the largest coordinate
+            # far from the origin a rotated vertex is only known to about 2 eps M (M the largest coordinate): the area of the rotated polygon
+            # can differ by the perimeter times that - a bound derived from the rounding of the coordinates alone, whatever way the area
+            # is summed (an area summed on absolute coordinates would be off by the order of eps M^2 instead)
             M = max(abs(fr.tx), abs(fr.ty)) + 40.0 * scale
-            tol = max(tol, 4 * len(s['vs']) * 2.3e-16 * M * M)
+            vx, vy = np.asarray(region.vertices.x, dtype=float), np.asarray(region.vertices.y, dtype=float)
+            perim = float(np.hypot(np.diff(np.append(vx, vx[0])), np.diff(np.append(vy, vy[0]))).sum())
+            tol = max(tol, 4 * perim * 2.3e-16 * M)
         if abs(got - want) > tol or abs(got - float(region.area)) > tol:
             ctx.violation(f'{pid}|area|{kind_sig(s)}', f'area after rotation {got!r}, before {float(region.area)!r}, model {want!r}', case)
             return
